@@ -215,7 +215,9 @@ def u_build_initial(ip):
                   extract_position=PyFn(lambda ip_, keys, st: {k: ip_.uf("extract", z3.Const(f"str:{k}", U), ip_.to_U(st)) for k in keys}, "extract_position"),
                   update_state=PyFn(lambda ip_, pos, st: ip_.uf("update_state", ip_.to_U(pos), ip_.to_U(st)), "update_state"))
     for with_jitter in (True, False):
-        jf = {"a": PyFn(lambda ip_, k, v: ip_.uf("jitter_a", ip_.to_U(k), ip_.to_U(v)), "jit_a"), "b": PyFn(lambda ip_, k, v: ip_.uf("jitter_b", ip_.to_U(k), ip_.to_U(v)), "jit_b")}
+        # (a jitter function may be registered for a key that NO kernel samples - a fixed quantity dispersed over the chains and tracked through positions_included)
+        jf = {"a": PyFn(lambda ip_, k, v: ip_.uf("jitter_a", ip_.to_U(k), ip_.to_U(v)), "jit_a"), "b": PyFn(lambda ip_, k, v: ip_.uf("jitter_b", ip_.to_U(k), ip_.to_U(v)), "jit_b"),
+              "s": PyFn(lambda ip_, k, v: ip_.uf("jitter_s", ip_.to_U(k), ip_.to_U(v)), "jit_s")}
         b = new_obj(ip, B, _model_state=ip.call(Option, [init_states], {}), _jitter_fns=ip.call(Option, [jf if with_jitter else None], {}),
                     _jitter_key=z3.Const("jitter_key", U), _num_chains=2)
         stored0 = b.f["_model_state"]
@@ -227,9 +229,9 @@ def u_build_initial(ip):
         tag = ".jitter" if with_jitter else ".nojitter"
         c.oblige("builder_state_not_modified" + tag, writes == [] and b.f["_model_state"] is stored0 and stored0.f["_value"] is init_states)
         if with_jitter:
-            jk = [ip.uf("split", z3.Const("jitter_key", U), z3.IntVal(i)) for i in range(2)]
+            jk = [ip.uf("split", z3.Const("jitter_key", U), z3.IntVal(i)) for i in range(3)]
             want_pos = {}
-            for i, kname in enumerate(("a", "b")):
+            for i, kname in enumerate(("a", "b", "s")):
                 per_chain_keys = [ip.uf("split", jk[i], z3.IntVal(j)) for j in range(2)]
                 want_pos[kname] = ip.uf(f"jitter_{kname}", ip.to_U(per_chain_keys), ip.uf("extract", z3.Const(f"str:{kname}", U), init_states))
             c.oblige("initial_states_are_update_with_jittered_position", ms == ip.uf("update_state", ip.to_U(want_pos), init_states))
